@@ -45,19 +45,30 @@ func rolesOf(p *core.Prog) *v2Roles {
 		return isB && b.Kind() == types.Int
 	})
 	r.docs, ok3 = core.UniqueField(cls, func(t types.Type) bool { _, isM := t.Underlying().(*types.Map); return isM })
-	// the dictionary: a pointer to a struct with exactly two map fields
-	r.dict, ok4 = core.UniqueField(cls, func(t types.Type) bool {
+	// the dictionary: a pointer to a struct that has an index from words to ids - a map[string]N with N a named integer
+	// type (the token id). How the reverse direction is stored (a second map, a slice) does not matter.
+	idOf := func(t types.Type) *types.Named {
 		st := core.StructOf(t)
-		if _, isPtr := t.Underlying().(*types.Pointer); !isPtr || st == nil || st.NumFields() != 2 {
-			return false
+		if _, isPtr := t.Underlying().(*types.Pointer); !isPtr || st == nil {
+			return nil
 		}
-		for i := 0; i < 2; i++ {
-			if _, isM := st.Field(i).Type().Underlying().(*types.Map); !isM {
-				return false
+		for i := 0; i < st.NumFields(); i++ {
+			m, isM := st.Field(i).Type().Underlying().(*types.Map)
+			if !isM {
+				continue
+			}
+			if kb, isB := m.Key().Underlying().(*types.Basic); !isB || kb.Info()&types.IsString == 0 {
+				continue
+			}
+			if n, isN := m.Elem().(*types.Named); isN {
+				if b, isB := n.Underlying().(*types.Basic); isB && b.Info()&types.IsInteger != 0 {
+					return n
+				}
 			}
 		}
-		return true
-	})
+		return nil
+	}
+	r.dict, ok4 = core.UniqueField(cls, func(t types.Type) bool { return idOf(t) != nil })
 	if !(ok1 && ok2 && ok3 && ok4) {
 		return r
 	}
@@ -69,15 +80,7 @@ func rolesOf(p *core.Prog) *v2Roles {
 			r.docType = f.Type().Underlying().(*types.Map).Elem()
 			r.docTypeName = core.TypeName(r.docType)
 		case r.dict:
-			ds := core.StructOf(f.Type())
-			for k := 0; k < ds.NumFields(); k++ {
-				m := ds.Field(k).Type().Underlying().(*types.Map)
-				if n, isN := m.Key().(*types.Named); isN {
-					if b, isB := n.Underlying().(*types.Basic); isB && b.Info()&types.IsInteger != 0 {
-						r.tokenID = n
-					}
-				}
-			}
+			r.tokenID = idOf(f.Type())
 		}
 	}
 	if r.docType == nil || r.tokenID == nil {
